@@ -40,3 +40,4 @@ for f in sorted(fns):
     print(f.replace('/repo/src/',''), '%d/%d not reached:'%(len(unc),len(byline)), ' '.join(names))
 print('TOTAL functions', tot, 'not reached', unc_t)
 P
+find /verif /repo -name "*.profraw" -delete 2>/dev/null   # child processes of some harnesses write their profile into the current directory
